@@ -67,6 +67,32 @@ def render_atomistic(rng):
             tokens.append(('atom', txt[:-1] + ';' + annots[t[2]][0] + ']', t[2], txt))
         else:
             tokens.append(t)
+    if rng.random() < 0.2:
+        # explicitly written hydrogens '([H])' on atoms written without brackets; they are atoms of the text like any
+        # other and may carry descriptors and annotations themselves
+        out, k, nh = [], 0, 0
+        while k < len(tokens):
+            t = tokens[k]
+            out.append(t)
+            k += 1
+            if t[0] == 'atom' and not t[1].startswith('[') and g.nodes[t[2]]['hcount'] >= 1 and not g.nodes[t[2]].get('aromatic') and rng.random() < 0.4:
+                while k < len(tokens) and tokens[k][0] in ('ring', 'desc') and tokens[k][2] == t[2]:
+                    out.append(tokens[k])
+                    k += 1
+                hkey = ('H', t[2], nh)
+                nh += 1
+                out.append(('open',))
+                if rng.random() < 0.3:
+                    text, attrs = A.random_annotation(rng, 'frag')
+                    if text:
+                        annots[hkey] = (text, attrs)
+                out.append(('atom', '[H;' + annots[hkey][0] + ']', hkey, '[H]') if hkey in annots else ('atom', '[H]', hkey))
+                for _ in range(rng.choice([0, 1, 1, 2])):
+                    x = (rng.choice('$<>!'), rng.choice(['', 'a', 'B2', '1']), 1)
+                    out.append(('desc', M.fmt_desc(*x), hkey, x))
+                out.append(('close',))
+        tokens = out
+        return tokens, [t[2] for t in tokens if t[0] == 'atom'], annots
     return tokens, r['atoms'], annots
 
 
@@ -143,6 +169,8 @@ def cases(seed, tier, shard, nshards):
                 first_atom_seen = True
                 if t[1].startswith('[') and not coarse:
                     feats.add('bracket_atom')
+                if t[1].startswith('[H'):
+                    feats.add('explicit_hydrogen_atom')
                 if t[1] in ('Cl', 'Br'):
                     feats.add('two_letter_element')
             if t[0] == 'desc':
